@@ -1,12 +1,12 @@
 SPECIFICATION Spec
 CONSTANTS
- Fam = "devAmbig"
+ Fam = "devDegree"
  Cases <- FamCases
  DevMono = FALSE
  DevNoOrder = FALSE
  DevNoLinktype = FALSE
  DevFirstWins = FALSE
- DevAmbig = TRUE
+ DevAmbig = FALSE
  DevNoNonEdge = FALSE
  DevNoPattern = FALSE
  DevKeepRemoved = FALSE
@@ -17,7 +17,7 @@ CONSTANTS
  DevOrderedPairs = FALSE
  DevGateOnce = FALSE
  DevGateBuildOnly = FALSE
- DevMissingCache = FALSE
+ DevMissingCache = TRUE
  DevDegree = FALSE
-INVARIANT FinalIsExpected
+INVARIANT MissingIsExpected
 CHECK_DEADLOCK FALSE
